@@ -18,7 +18,8 @@ RULE = ("cases are (reached state, operation) pairs. exhaustive part: universe o
         "(children and non-children), remove_children; breadth-first over real-state signatures to the depth bound. random part: "
         "histories of 200-2000 operations over 12-40 nodes and 4 names. After every step: every child list and listed-child parent "
         "link against the model, and all eight queries on every node. distinct = distinct (state signature, operation); non-trivial "
-        "= all")
+        "= all"
+        ". Also: names that contain each other and the empty name, id strings shared by distinct nodes, copies of subtrees as new roots, every known element name as an intermediate node of every search, parents of 64-300 children, positions that are not integers with a frame condition on the parent links of all nodes")
 ASSUMPTIONS = [
     "precondition enforced by the generator: a node being attached is listed by no node and is not an ancestor of the target",
     "parent links of nodes that no node lists are not constrained (the library keeps stale links after remove/replace/clear); "
